@@ -186,7 +186,16 @@ theorem gstep_eval (ih : AllR ld fuel) : ∀ env n, GI (eval ld (fuel+1) env n) 
       cases o' with
       | ok _ _ => cases hm
       | err _ _ _ _ _ => cases hm
-      | fail f' t' => exact hm
+      | fail f' t' =>
+        simp only [erO, Out.fail.injEq] at hm
+        obtain ⟨rfl, hm2⟩ := hm
+        cases f with
+        | syn se =>
+          simp only [erO, Out.fail.injEq]
+          exact ⟨trivial, er_restoreVars env _ (er_removeAll env ids hm2)⟩
+        | oof => simp only [erO, Out.fail.injEq]; exact ⟨trivial, hm2⟩
+        | unsupported w => simp only [erO, Out.fail.injEq]; exact ⟨trivial, hm2⟩
+        | host k => simp only [erO, Out.fail.injEq]; exact ⟨trivial, hm2⟩
   | lambda ps ds body pos =>
     simp only [Ckl.eval]
     exact R2.of_wg (fun _ _ => rfl)
